@@ -65,9 +65,17 @@ func New(minValue, maxValue int64, sigfigs int) *Histogram {
 
 	// determine exponent range needed to support the trackable value with no
 	// overflow:
+	if unitMagnitude+subBucketHalfCountMagnitude > 61 {
+		panic(fmt.Errorf("cannot represent %d significant figures above the lowest trackable value %d", sigfigs, minValue))
+	}
 	smallestUntrackableValue := int64(subBucketCount) << uint(unitMagnitude)
 	bucketsNeeded := int32(1)
 	for smallestUntrackableValue <= maxValue {
+		if smallestUntrackableValue > math.MaxInt64/2 {
+			// doubling again would overflow: one more bucket covers the rest of the int64 range
+			bucketsNeeded++
+			break
+		}
 		smallestUntrackableValue <<= 1
 		bucketsNeeded++
 	}
